@@ -1,5 +1,5 @@
 (* Entry point for the extracted executable of C13: decodes cases, runs the model. *)
-From CV Require Import Base.Bytes Robust.Links Robust.Validate.
+From CV Require Import Base.Bytes Robust.Links Robust.Validate Robust.PPArith.
 Local Open Scope N_scope.
 
 Definition BAD : list str := [[66]].    (* "B": malformed case *)
@@ -44,8 +44,19 @@ Fixpoint vtoks (l : list str) : list vtok :=
 Definition show_vres (r : vres) : list str :=
   match r with VOk => [[111; 107]] | VErr i => [[69]; show_nat i] end.
 
+Definition aop_of (s : str) : option aop :=
+  match s with
+  | [42] => Some AMul | [47] => Some ADiv | [37] => Some ARem | [43] => Some AAdd | [45] => Some ASub
+  | [60; 60] => Some AShl | [62; 62] => Some AShr
+  | _ => None
+  end.
+
+Definition show_aout (o : aout) : list str :=
+  match o with AVal z => [[86]; dec_of_Z z] | AThrow => [[88]] | AUB => [[85]] end.
+
 (* "links" tok... -> "ok" partner-or-"-" per token | "E" index | "UB"
    "simple" tok... -> the same through the one-stack algorithm
+   "ppfold" op a b -> "V" value | "X" (the folder throws) | "U" (undefined behaviour in the folder's own code)
    "validate" (tok link)... -> "ok" | "E" index   (link = index or "-") *)
 Definition run (l : list str) : list str :=
   match l with
@@ -56,6 +67,14 @@ Definition run (l : list str) : list str :=
         show_outcome (length toks) (simple_links (map tk_of toks))
       else if str_eqb tag [118; 97; 108; 105; 100; 97; 116; 101] then
         show_vres (validate (vtoks toks))
+      else if str_eqb tag [112; 112; 102; 111; 108; 100] then
+        match toks with
+        | [o; a; b] => match aop_of o, Z_of_dec a, Z_of_dec b with
+                       | Some o', Some a', Some b' => show_aout (fold o' a' b')
+                       | _, _, _ => BAD
+                       end
+        | _ => BAD
+        end
       else BAD
   | [] => BAD
   end.
